@@ -165,6 +165,9 @@ def wrap_paragraph_lines(
     if width <= 0:
         if replace_whitespace:
             text = re.sub(r"\s+", " ", text)
+        else:
+            # Other whitespace is kept, but the paragraph still becomes a single line.
+            text = re.sub(r"[^\S\n]*\n\s*", " ", text)
         if drop_whitespace:
             text = text.strip()
         return [text] if text else []
